@@ -85,6 +85,9 @@ def render_item(it):
 def render_file(ast):
     lines = []
     if ast.get("generated"):
+        # the marker stands on line `generated` (1-based), after plain comment lines
+        for k in range(1, int(ast["generated"])):
+            lines.append("// header line %d" % k)
         lines.append("// @generated")
     if ast.get("innerskip"):
         lines.append("#![rustfmt::skip]")
@@ -393,7 +396,9 @@ def expectation(asts, files, dirs, cfg, mode, root=ROOT, want_cands=True):
             return True
         if cfg.get("ignore") and ignored(cfg["ignore"], p):
             return True
-        if a.get("generated") and cfg.get("fgf") is False:
+        # a file is generated when the marker stands within the first generated_marker_line_search_limit
+        # (default 5) lines
+        if a.get("generated") and cfg.get("fgf") is False and int(a["generated"]) <= cfg.get("gen_limit", 5):
             return True
         return False
 
@@ -668,6 +673,16 @@ def build_tree(shape, devs):
             cfg["fgf"] = False
         elif k == "generated_on":
             asts[f]["generated"] = True
+        elif k == "generated_at_limit":
+            asts[f]["generated"] = 5
+            cfg["fgf"] = False
+        elif k == "generated_past_limit":
+            asts[f]["generated"] = 6
+            cfg["fgf"] = False
+        elif k == "generated_limit0":
+            asts[f]["generated"] = 1
+            cfg["fgf"] = False
+            cfg["gen_limit"] = 0
         elif k in IGN_KINDS:
             pat = ignore_pattern(k, f)
             if pat is None:
@@ -757,6 +772,8 @@ def build_cases(shape, devs, policy):
             toml += "ignore = [%s]\n" % ", ".join('"%s"' % p for p in cfg["ignore"])
         if cfg.get("fgf") is False:
             toml += "format_generated_files = false\n"
+        if "gen_limit" in cfg:
+            toml += "generated_marker_line_search_limit = %d\n" % cfg["gen_limit"]
         if toml:
             files["rustfmt.toml"] = toml
             r2["rustfmt.toml"] = "config"
@@ -781,7 +798,7 @@ def build_cases(shape, devs, policy):
 
 QUICK_SHAPES = [(0,), (0, 1), (0, 1, 0), (0, 1, 2), (0, 1, 2, 1)]
 THOROUGH_SHAPES = QUICK_SHAPES + [(0, 0), (0, 1, 1), (0, 1, 2, 3), (0, 1, 2, 3, 2), (0, 1, 0, 3)]
-QUICK_MARKS = ["skipattr", "innerskip", "generated", "generated_on", "ign_file", "ign_base", "ign_dir", "ign_glob"]
+QUICK_MARKS = ["skipattr", "innerskip", "generated", "generated_on", "generated_at_limit", "generated_past_limit", "generated_limit0", "ign_file", "ign_base", "ign_dir", "ign_glob"]
 THOROUGH_MARKS = QUICK_MARKS + ["ign_anch", "ign_dirslash", "ign_dstar"]
 ROOT_MARKS = ["innerskip", "generated", "ign_file", "ign_base"]
 
